@@ -354,6 +354,10 @@ func runC11(c *Checker) {
 	// ... and the per-direction mutexes of a connection being released: Refresh takes them, so a
 	// callback that returned holding one blocks the next Accept/Dial for ever (LOCKBAL, as C05)
 	ruleLOCKBAL(c, targetMbox)
+	// the next connection is handed out only after the old one is done (Done() closes at the end of
+	// Close): a Close that can hang - a callback that ignores the context gbn cancels, an
+	// unbounded wait - means no fresh connection ever again (C12, imported)
+	importLayers(c, "C12")
 }
 
 // ruleAcceptRetryable: a failed attempt to set up the next connection must not end the listener.
